@@ -438,6 +438,8 @@ def normalize_function(fn, resolver=None):
                 c = counts.get(r, 0)
                 if r in params and c == 2:
                     continue                      # a parameter that is never rebound
+                if c == 1 and r in single and r != name:
+                    continue                      # a local bound exactly once
                 if _only_loop_bound(new, r) and _bound_by_enclosing_loop(new, r, asg):
                     continue                      # the loop variable of a loop around the definition
                 ok = False
@@ -464,7 +466,7 @@ def normalize_function(fn, resolver=None):
         if not _is_boolish(v):
             continue
         free = _names(v)
-        if any(counts.get(r, 0) > 2 or (counts.get(r, 0) == 2 and r not in _params(new)) for r in free):
+        if _rebound_between(new, asg, name, free):
             continue
         if _calls_between_may_change(new, asg, name):
             continue
@@ -544,6 +546,39 @@ def _calls_between_may_change(fn, asg, name):
                 return True
             if isinstance(x, ast.Call):
                 return True
+    return False
+
+
+def _rebound_between(fn, asg, name, free):
+    """is one of the names the condition reads re-bound between the definition of the flag and its
+    last use (in the block of the definition)?"""
+    found = []
+
+    def find(stmts):
+        for i, s_ in enumerate(stmts):
+            if s_ is asg:
+                found.append((stmts, i))
+                return
+            for fld in ('body', 'orelse', 'finalbody'):
+                sub = getattr(s_, fld, None)
+                if isinstance(sub, list) and not isinstance(s_, (ast.FunctionDef, ast.AsyncFunctionDef, ast.ClassDef)):
+                    find(sub)
+            for h in getattr(s_, 'handlers', []):
+                find(h.body)
+    find(fn.body)
+    if not found:
+        return True
+    block, i = found[0]
+    last = i
+    for k in range(i + 1, len(block)):
+        if any(isinstance(x, ast.Name) and x.id == name for x in ast.walk(block[k])):
+            last = k
+    for s_ in block[i + 1:last + 1]:
+        for x in ast.walk(s_):
+            if isinstance(x, ast.Name) and isinstance(x.ctx, (ast.Store, ast.Del)) and x.id in free:
+                return True
+    # inside a loop the names must not be re-bound anywhere in the loop (next iteration reads the flag anew,
+    # which is fine) -- only the window above matters
     return False
 
 
